@@ -179,6 +179,40 @@ class _CanonAdd(ast.NodeTransformer):
         return node
 
 
+class _CanonIfAssign(ast.NodeTransformer):
+    """`if <comparison>: x = a` / `else: x = b` (one plain-name assignment per arm, same name) is
+    analysed as `x = a if <comparison> else b`: the optional-argument (`p is None`) and
+    fallback-step (`lc[j] != 0`) idioms are recognised in one spelling only.  Tests that are calls
+    (`issparse(X)`, `hasattr(...)`) or flags keep their statement form: the dispatch and
+    guard-context rules work on statements."""
+
+    def _fold(self, body):
+        out = []
+        for st in body:
+            if isinstance(st, ast.If) and isinstance(st.test, ast.Compare) \
+                    and len(st.body) == 1 and len(st.orelse) == 1 \
+                    and all(isinstance(x, ast.Assign) and len(x.targets) == 1 and isinstance(x.targets[0], ast.Name)
+                            for x in (st.body[0], st.orelse[0])) \
+                    and st.body[0].targets[0].id == st.orelse[0].targets[0].id:
+                new = ast.Assign([ast.Name(st.body[0].targets[0].id, ast.Store())],
+                                 ast.IfExp(st.test, st.body[0].value, st.orelse[0].value))
+                ast.copy_location(new, st)
+                ast.copy_location(new.value, st)
+                ast.fix_missing_locations(new)
+                out.append(new)
+            else:
+                out.append(st)
+        return out
+
+    def generic_visit(self, node):
+        super().generic_visit(node)
+        for fld in ("body", "orelse"):
+            lst = getattr(node, fld, None)
+            if isinstance(lst, list) and lst and isinstance(lst[0], ast.stmt):
+                setattr(node, fld, self._fold(lst))
+        return node
+
+
 class Module:
     def __init__(self, name, path, relpath):
         self.name = name
@@ -194,6 +228,7 @@ class Module:
             raise AnalysisError(f"cannot parse {relpath}: {e}")
         _CanonCompare().visit(self.tree)
         _CanonAdd().visit(self.tree)
+        _CanonIfAssign().visit(self.tree)
         self.imports = {}     # local name -> (module name, attr or None)
         self.functions = {}
         self.classes = {}
